@@ -374,7 +374,7 @@ func (vc *VC) compileBin(env *Env, n *SNode) *Val {
 		x, y := vc.toInt(a), vc.toInt(b)
 		switch op {
 		case "*":
-			if vc.intMode {
+			if vc.intMode && !vc.ringMode {
 				return &Val{K: KInt, C: []string{vc.prodTerm(x, y)}}
 			}
 			return &Val{K: KInt, C: []string{app(op, x, y)}}
@@ -711,6 +711,20 @@ func (vc *VC) compileCall(env *Env, n *SNode) *Val {
 		e2.heap = env.old
 		e2.localFirst = false // old(x): parameters denote their entry values
 		return vc.compile(&e2, args[0])
+	case "fe":
+		// fe(p): the abstract ring value of the field element p points to (ring mode only)
+		need(1)
+		if !vc.ringMode {
+			sfail("fe(...) is only available in ring mode")
+		}
+		pv := vc.compile(env, args[0])
+		if pv.K == KAgg {
+			return &Val{K: KInt, C: []string{sel(sel(pv.H.m["fe"], pv.C[0]), pv.C[1])}}
+		}
+		if pv.K != KPtr {
+			sfail("fe: argument must be a pointer to a field element")
+		}
+		return &Val{K: KInt, C: []string{sel(sel(env.heap.m["fe"], pv.C[0]), pv.C[1])}}
 	case "athead":
 		// athead(E): E evaluated in the heap at the head of the innermost enclosing loop (current iteration)
 		need(1)
@@ -1068,6 +1082,12 @@ func (vc *VC) applyOpaque(env *Env, pf *PureFn, vals []*Val) *Val {
 		p.C = nil
 		proto = &p
 		vc.opaque[key] = proto
+		if vc.opaqueDef == nil {
+			vc.opaqueDef = map[string]opaqueDef{}
+		}
+		if sx, err := parseSx(body.C[0]); err == nil {
+			vc.opaqueDef[key] = opaqueDef{names: names, body: sx}
+		}
 	}
 	var ts []string
 	for i, v := range vals {
@@ -1079,7 +1099,36 @@ func (vc *VC) applyOpaque(env *Env, pf *PureFn, vals []*Val) *Val {
 	}
 	out := *proto
 	out.C = []string{app(sym, ts...)}
+	// ground applications: the instance of the defining equation is stated next to the quantified axiom
+	// (the solvers otherwise only reach it by E-matching, after preprocessing)
+	if od, ok := vc.opaqueDef[key]; ok && !vc.trusted["inst:"+out.C[0]] {
+		ground := true
+		for _, t := range ts {
+			if strings.Contains(t, "!") {
+				ground = false
+			}
+		}
+		if ground && len(vc.trusted) < 4000 {
+			vc.trusted["inst:"+out.C[0]] = true
+			m := map[string]*Sx{}
+			for i, nm := range od.names {
+				if sx, err := parseSx(ts[i]); err == nil {
+					m[nm] = sx
+				} else {
+					ground = false
+				}
+			}
+			if ground {
+				vc.assume(sEq(out.C[0], od.body.subst(m).String()))
+			}
+		}
+	}
 	return &out
+}
+
+type opaqueDef struct {
+	names []string
+	body  *Sx
 }
 
 func (vc *VC) specConv(x *Val, w int, signed bool) *Val {
